@@ -67,6 +67,8 @@ class Check(PropertyCheck):
                 bad = gen.gen_invalid_request(rng, tr, M)
                 if bad:
                     lines += [f"disp {bad[0]} {bad[1]} {bad[2]}", "q current_time", "q completed"]
+            if rng.random() < 0.04:
+                lines += ["stamp", "q current_time", "q completed"]
             if rng.random() < 0.08:
                 # a look-ahead on a copy of the dispatcher, which is then queried itself: the original's clock is its own
                 pj, pp, pm = gen.gen_valid_request(rng, tr, "uniform")
@@ -94,6 +96,9 @@ class Check(PropertyCheck):
         lines += ["q is_complete", "q makespan"]
         if rng.random() < 0.35:
             # a second episode on the same dispatcher: time starts again at the beginning and moves forward again
+            if rng.random() < 0.5:
+                # (the caller noted the first episode's result in the schedule's metadata, as the library's solvers do)
+                lines.append("stamp")
             lines += ["reset", "mark episode"]
             if rng.random() < 0.4:
                 lines += ["q current_time", "q completed"]
